@@ -167,7 +167,11 @@ func (g *Gen) derive(f int) int {
 	if s.err || len(s.names) == 0 {
 		return f
 	}
-	switch g.rng.Intn(4) {
+	k := g.rng.Intn(4)
+	if s.n > 250 && (k == 0 || k == 3) {
+		k = 1 + g.rng.Intn(2) // sort / distinct of a large frame are only judged with a row-number column
+	}
+	switch k {
 	case 0:
 		c := g.oneOf(s.names)
 		return g.do(Step{Op: "Sort", Recv: f, Orders: []Order{{Col: toBS(c), Rev: g.rng.Intn(2) == 0, NullLast: g.rng.Intn(2) == 0}}})
